@@ -260,6 +260,10 @@ def judge(case, run, w, truth, between, scode, sreason, acc):
                         if c['log_before'] > close_logidx:
                             key = 'send-during-closing-after-echo'
                             break
+        if key is None and case['end'] == 'stay' and run.end == 'stop' and evs[-1].name == 'disconnected' and evs[-1].graceful \
+                and not any(e[0] == 'recv' and e[5] == b'' for e in w.log):
+            # "ends with a graceful Disconnected once the server drops the connection": the server never dropped it
+            key = 'graceful-disconnected-before-the-server-dropped-the-connection'
         if key is None and case['end'] == 'drop' and run.end == 'stop':
             last = evs[-1]
             if last.name != 'disconnected' or not last.graceful:
